@@ -36,15 +36,23 @@ MODELLED = ('pm/sop.py ParametricMap.__init__ argument checks, _get_pixel_data_t
             'DimensionIndexValues (np.unique rank) / RWVM placement; pm/content.py RealWorldValueMapping '
             'checks; image.py _standardize_frame_index, native get_raw_frame slicing, get_stored_frame(s), '
             'get_frame(s) real-world branch of _CombinedPixelTransform, pixels.apply_lut, '
-            '_select_real_world_value_map; sc/sop.py SCImage validation + frame.encode_frame checks, '
+            '_select_real_world_value_map; get_stored_frames (incl. None = all frames, empty request); '
+            '_CombinedPixelTransform.__init__ resolution of apply_real_world_transform / '
+            'apply_modality_transform / apply_voi_transform (None/True/False) on a parametric map, identity '
+            'rescale and LINEAR window branches of __call__ (pixels.apply_voi_window); pm/content.py '
+            'RealWorldValueMapping.apply; Image.get_volume of single-channel maps (slice order, unique '
+            'positions); sc/sop.py SCImage validation + frame.encode_frame checks, '
             'native and bit-packed encoding')
-STRATA = ['pm_store', 'pm_refuse', 'pm_read', 'pm_read_rw', 'pm_float_read', 'pm_volume',
-          'rwvm_ctor', 'sc', 'sc_refuse']
+STRATA = ['pm_store', 'pm_refuse', 'pm_read', 'pm_read_rw', 'pm_read_flags', 'pm_float_read', 'pm_volume',
+          'rwvm_ctor', 'rwvm_apply', 'sc', 'sc_refuse']
 NOT_EXECUTED = ['JPEG 2000 (no openjpeg codec installed): only the size/bit-depth refusals are run',
                 'JPEG baseline (lossy) secondary captures: only acceptance/refusal, not pixel equality',
                 'workers: ParametricMap / SCImage constructors of this tree have no workers parameter '
                 '(cases run in a fork pool of worker processes)',
-                'TILED_FULL slide sources with implicit plane positions (positions computed by the library)']
+                'TILED_FULL slide sources with implicit plane positions (positions computed by the library)',
+                'palette_color_lut_transformation argument of ParametricMap; TotalPixelMatrix* attributes of '
+                'slide maps with explicit positions; get_volume slice/row/column sub-ranges and irregular spacing; '
+                'window width 1 (division by zero in apply_voi_window) and SIGMOID / LINEAR_EXACT windows']
 RULE = ('every array input in several memory layouts (C, Fortran, transposed views, strided, negative strides, '
         'read-only, big-endian 2-byte integers); every read accessor on a fresh object and after other '
         'accessors (pixel_array cache), eager and lazy; pm_store: arrays 2-D/3-D/4-D of uint8/uint16/float32/float64 words (floats: random bit patterns + '
@@ -53,7 +61,11 @@ RULE = ('every array input in several memory layouts (C, Fortran, transposed vie
         'permutations, native + RLE + JPEG-LS; pm_refuse: every constructor guard violated once; '
         'pm_read(_rw): eager and lazy imread, single/batch/all/pixel_array, numbers and indices incl. invalid '
         'ones, linear (int/float range) and LUT mappings shared / per channel, selectors by index (negative, '
-        'out of range) and label, values outside the mapped range; sc: bool/uint8/uint16/12-bit mono and '
+        'out of range) and label, values outside the mapped range, empty requests; pm_read_flags: all 27 '
+        'combinations of the three tri-state transform flags every run + random ones biased to consistent flags, '
+        'dyadic window centre/width; rwvm_apply: RealWorldValueMapping.apply on signed/unsigned integer arrays of '
+        'any shape incl. empty, values at and beyond the mapped range, float arrays for LUTs; pm_volume: shuffled '
+        'regularly spaced planes, with/without real-world values, duplicate positions; sc: bool/uint8/uint16/12-bit mono and '
         'RGB/YBR_FULL x transfer syntax; sc_refuse: product of dtype x bits x shape x PI x syntax. '
         'non-trivial = more than one distinct word (or a refusal); distinct by case hash')
 EXHAUSTIVE = {'quick': False, 'thorough': False}
@@ -373,8 +385,56 @@ def _read_case(rng, tier, rw):
         c['maps'] = {'shape': 'nested', 'items': items} if len(shape) == 4 else {'shape': 'flat', 'items': items[0]}
         c['sel'] = rng.choice([0, 0, 0, 1, -1, -2, nmaps, f'c{rng.randrange(nch)}m{rng.randrange(nmaps)}',
                                'nope'])
+    if not rw and api == 'batch' and rng.random() < 0.1:
+        fs = []          # nothing requested
     c.update(api=api, as_index=as_index, frames=fs)
     c['history'] = _history(rng)
+    return c
+
+
+TRI = [None, True, False]
+
+
+def _flags_case(rng, tier, flags=None):
+    """get_frame(s) with the three tri-state transform flags (real world / modality / VOI)"""
+    c = _read_case(rng, tier, True)
+    while c['api'] == 'pixel_array':
+        c = _read_case(rng, tier, True)
+    c['kind'] = 'pm_read_flags'
+    if flags is None:
+        flags = [rng.choice(TRI), rng.choice(TRI), rng.choice(TRI)]
+        while _flags_expect(*flags) == 'error' and rng.random() < 0.75:      # mostly consistent flags
+            flags = [rng.choice(TRI), rng.choice(TRI), rng.choice(TRI)]
+    c['flags'] = list(flags)
+    # LINEAR window with 1/(width-1) and width/2 dyadic (exact in float64); width 1 divides by zero
+    c['ww'] = rng.choice([2.0, 3.0, 5.0, 1.5, 0.5, 17.0, 9.0])
+    c['wc'] = rng.choice([1.0, 0.5, 8.0, 20.25, 3.0])
+    if c['api'] == 'batch' and rng.random() < 0.12:
+        c['frames'] = []
+    return c
+
+
+APPLY_DT = ['uint8', 'uint16', 'int8', 'int16', 'int32', 'int64']
+
+
+def _apply_case(rng):
+    """RealWorldValueMapping.apply(array) called directly"""
+    dt = rng.choice(APPLY_DT)
+    signed = dt.startswith('int')
+    lo = rng.choice([0, 0, 1, 3, -4] if signed else [0, 0, 1, 3])
+    n = rng.choice([1, 2, 5, 12, 12])
+    if rng.random() < 0.5:
+        m = _lut(rng, 'l', lo, n)
+    else:
+        m = _lin(rng, 'l', rng.random() < 0.4, lo, lo + n - 1)
+    shape = rng.choice([[0], [1], [3], [2, 3], [4, 1], [2, 0], [2, 2, 2], [5], [3, 2], [1, 1], [7], [2, 3]])
+    vals = [rng.randint(lo, lo + n - 1) for _ in range(_shape_size(shape))]
+    if vals and rng.random() < 0.25:
+        vals[rng.randrange(len(vals))] = rng.choice([lo - 1, lo + n, lo + n + 7] + ([-9] if signed else []))
+    vals = [v if signed else max(0, v) for v in vals]
+    c = {'kind': 'rwvm_apply', 'dtype': dt, 'shape': shape, 'vals': vals, 'map': m}
+    if m['type'] == 'lut' and rng.random() < 0.15:
+        c['dtype'] = rng.choice(['float32', 'float64'])      # a LUT needs integers
     return c
 
 
@@ -402,6 +462,11 @@ def _volume_case(rng, tier):
     c['lazy'] = rng.random() < 0.5
     c['rw'] = rng.random() < 0.3
     c['dz8'] = abs(dz)
+    if n > 1 and rng.random() < 0.15:
+        # two planes at the same position: frames are not identified by their positions
+        a, b = rng.sample(range(n), 2)
+        c['src']['pos'][a] = list(c['src']['pos'][b])
+        c['dup'] = True
     if c['rw']:
         top = (1 << (8 * WIDTH[c['dtype']])) - 1
         m = _lin(rng, 'c0m0', False, 0, top)
@@ -515,8 +580,16 @@ def gen_cases(rng, tier):
         cases.append(c)
     for _ in range(60 * k):
         cases.append(_read_case(rng, tier, False))
-    for _ in range(90 * k):
+    for _ in range(60 * k):
         cases.append(_read_case(rng, tier, True))
+    for rwf in TRI:          # every combination of the three flags, every run
+        for mdf in TRI:
+            for voif in TRI:
+                cases.append(_flags_case(rng, tier, (rwf, mdf, voif)))
+    for _ in range(25 * k):
+        cases.append(_flags_case(rng, tier))
+    for _ in range(40 * k):
+        cases.append(_apply_case(rng))
     for op in HISTORY_OPS:
         for lazy in (False, True):
             for rw in (False, True):
@@ -538,6 +611,31 @@ def gen_cases(rng, tier):
                     c.update(api=api, as_index=ai, lazy=lazy, history=['pixel_array'],
                              frames=None if api == 'all' else [lo + nf - 1, lo])
                     cases.append(c)
+    for rep in range(6 * k):
+        # per-channel LUT mappings that differ between channels, read as a batch across channels
+        c = _read_case(rng, tier, True)
+        while len(c['shape']) != 4 or c['shape'][3] < 2:
+            c = _read_case(rng, tier, True)
+        hi = max(_flatten(c['arr']))
+        c['maps'] = {'shape': 'nested',
+                     'items': [[_lut(rng, f'c{j}m0', 0, hi + 1)] for j in range(c['shape'][3])]}
+        nf = c['shape'][0] * c['shape'][3]
+        c.update(sel=0, api=rng.choice(['all', 'batch']), as_index=False,
+                 frames=None, history=[] if rep % 2 else ['pixel_array'])
+        if c['api'] == 'batch':
+            c['frames'] = [nf, 1, 2]
+        if rep % 3 == 0:
+            c['kind'] = 'pm_read_flags'
+            c.update(flags=[None, None, False], ww=2.0, wc=1.0)
+        cases.append(c)
+        # frames with an odd number of bytes stored back to back, read without the pixel array cache
+        c = _read_case(rng, tier, rep % 2 == 1)
+        while _dims(c)[0] * _dims(c)[3] < 3 or (_dims(c)[1] * _dims(c)[2]) % 2 == 0 or c['dtype'] != 'uint8':
+            c = _read_case(rng, tier, rep % 2 == 1)
+        nf = _dims(c)[0] * _dims(c)[3]
+        c.update(ts=rng.choice(['Explicit', 'Implicit']), lazy=False, history=[],
+                 api=rng.choice(['single', 'batch']), as_index=False, frames=[nf, 2, nf - 1])
+        cases.append(c)
     for _ in range(6 * k):
         cases.append(_float_read_case(rng, tier))
     for _ in range(15 * k):
@@ -589,7 +687,7 @@ def gen_cases(rng, tier):
         cases.append(c)
     for c in cases:
         # big-endian 2-byte integers are refused by the constructor: nothing to read back
-        if (c['kind'] in ('pm_read', 'pm_read_rw', 'pm_volume') and c.get('layout') == 'byteswap'
+        if (c['kind'] in ('pm_read', 'pm_read_rw', 'pm_read_flags', 'pm_volume') and c.get('layout') == 'byteswap'
                 and c['dtype'] == 'uint16'):
             c['layout'] = 'neg'
     return cases
@@ -780,7 +878,7 @@ def _pm_ctor(c):
         import highdicom as hd
         kw['pixel_measures'] = hd.PixelMeasuresSequence(
             pixel_spacing=(1.0, 1.0), slice_thickness=1.0, spacing_between_slices=c['dz8'] / 8.0)
-    return _simple_pm(_sources(c), arr, _mk_maps(c['maps']), window_center=1.0, window_width=c['ww'],
+    return _simple_pm(_sources(c), arr, _mk_maps(c['maps']), window_center=c.get('wc', 1.0), window_width=c['ww'],
                       transfer_syntax_uid=TS[c['ts']], **kw)
 
 
@@ -914,7 +1012,12 @@ def _run_impl(c):
         if isinstance(pm, Err):
             return pm
         return _observe_pm(pm)
-    if k in ('pm_read', 'pm_read_rw', 'pm_float_read', 'pm_volume'):
+    if k == 'rwvm_apply':
+        def ap():
+            arr = np.array(c['vals'], dtype=NP[c['dtype']]).reshape(c['shape'])
+            return _fr(_mk_mapping(c['map']).apply(arr))
+        return catch(ap)
+    if k in ('pm_read', 'pm_read_rw', 'pm_read_flags', 'pm_float_read', 'pm_volume'):
         pm = _pm_ctor(c)
         im = _image(pm, c['lazy'])
         nf = int(pm.NumberOfFrames)
@@ -958,6 +1061,12 @@ def _run_impl(c):
 
         def rdw():
             kw = dict(apply_real_world_transform=True, real_world_value_map_selector=_sel(c))
+            if k == 'pm_read_flags':
+                rwf, mdf, voif = c['flags']
+                kw = dict(apply_real_world_transform=rwf, apply_modality_transform=mdf,
+                          apply_voi_transform=voif, real_world_value_map_selector=_sel(c))
+                if api == 'batch':
+                    return [_fr(x) for x in im.get_frames(list(fs), as_indices=ai, **kw)]
             if api == 'single':
                 return [_fr(im.get_frame(f, as_index=ai, **kw)) for f in fs]
             if api == 'batch':
@@ -1093,11 +1202,37 @@ def coq_term(c):
         if c['api'] == 'pixel_array':
             fs, ai = list(range(1, nf + 1)), False
         w = WIDTH[c['dtype']]
+        if k == 'pm_read' and c['api'] in ('batch', 'all'):
+            opt = 'None' if c['frames'] is None else f'(Some {zl(c["frames"])})'
+            return f'(run_pm_read_batch {w}%nat {_zl4(c)} {N} {R} {C} {M} {opt} {_b(ai)})'
         if k == 'pm_read':
             return f'(run_pm_read_stored {w}%nat {_zl4(c)} {N} {R} {C} {M} {zl(fs)} {_b(ai)})'
         batch = c['api'] in ('batch', 'all')
         return (f'(run_pm_read_rw {_b(batch)} {w}%nat {_zl4(c)} {N} {R} {C} {M} {_maps_term(c["maps"])} '
                 f'{_sel_term(c["sel"])} {zl(fs)} {_b(ai)})')
+    if k == 'pm_read_flags':
+        N, R, C, M = _dims(c)
+        w = WIDTH[c['dtype']]
+        batch = c['api'] in ('batch', 'all')
+        opt = 'None' if c['frames'] is None else f'(Some {zl(c["frames"])})'
+        fl = ' '.join('None' if f is None else f'(Some {_b(f)})' for f in c['flags'])
+        return (f'(run_pm_read_flags {_b(batch)} {w}%nat {_zl4(c)} {N} {R} {C} {M} {_maps_term(c["maps"])} '
+                f'{_sel_term(c["sel"])} {fl} {qlit(F(c["wc"]))} {qlit(F(c["ww"]))} {opt} {_b(c["as_index"])})')
+    if k == 'pm_volume':
+        N, R, C, M = _dims(c)
+        if M != 1:
+            return None
+        w = WIDTH[c['dtype']]
+        pos = '[' + '; '.join(zl(p) for p in c['src']['pos']) + ']'
+        if c['rw']:
+            m = c['maps']['items'][0][0] if c['maps']['shape'] == 'nested' else c['maps']['items'][0]
+            rw = f'(Some {_mapping_term(m)})'
+        else:
+            rw = 'None'
+        return f'(run_pm_volume {w}%nat {_zl4(c)} {N} {R} {C} {pos} {rw})'
+    if k == 'rwvm_apply':
+        isint = c['dtype'] not in ('float32', 'float64')
+        return f"(run_rwvm_apply {_b(isint)} {_mapping_term(c['map'])} {zl(c['vals'])})"
     if k == 'rwvm_ctor':
         return (f"(run_rwvm {_b(c['has_lut'])} {_b(c['has_slope'])} {_b(c['has_intercept'])} "
                 f"{_b(c['float_range'])} {c['n_lut']} {c['first']} {c['last']})")
@@ -1207,6 +1342,8 @@ def oracle(c, out):
         idx = [f if ai else f - 1 for f in fs]
         if any(i < 0 or i >= nf for i in idx):
             return None if out == Err('IndexError') else f'invalid frame number gave {out}'
+        if not fs:
+            return None if isinstance(out, Err) else 'an empty request returned frames'
         if isinstance(out, Err):
             return f'reading stored frames {fs} failed: {out}'
         for f, i in zip(out, idx):
@@ -1249,6 +1386,70 @@ def oracle(c, out):
         if out != want:
             return f'real world values differ for frames {fs}'
         return None
+    if k == 'pm_read_flags':
+        exp, M = _expected_frames(c)
+        nf = len(exp)
+        ai = c['as_index']
+        fs = c['frames'] if c['frames'] is not None else (list(range(nf)) if ai else list(range(1, nf + 1)))
+        idx = [f if ai else f - 1 for f in fs]
+        mode = _flags_expect(*c['flags'])
+        if idx and not 0 <= idx[0] < nf:
+            return None if out == Err('IndexError') else f'invalid frame number gave {str(out)[:80]}'
+        if mode == 'error':
+            return None if isinstance(out, Err) else f'contradictory transform flags {c["flags"]} accepted'
+        chans = [c['maps']['items']] if c['maps']['shape'] == 'flat' else c['maps']['items']
+        want = []
+        for i in (idx if idx else [0]):
+            if i < 0 or i >= nf:
+                want.append('index')
+                break
+            if mode == 'rw':
+                ms = chans[i % M] if M > 1 else chans[0]
+                s = c['sel']
+                if isinstance(s, str):
+                    hit = [m for m in ms if m['label'] == s]
+                    m = hit[0] if hit else None
+                else:
+                    m = ms[s] if -len(ms) <= s < len(ms) else None
+                if m is None:
+                    want.append('selector')
+                    break
+                r = _ref_mapping(m, exp[i])
+            elif mode == 'stored':
+                r = [F(int(v)) for v in exp[i].reshape(-1)]
+            else:
+                wc, ww = F(c['wc']), F(c['ww'])
+                r = [min(F(1), max(F(0), (int(v) - (wc - ww / 2)) / (ww - 1))) for v in exp[i].reshape(-1)]
+            want.append(r)
+            if r == 'range':
+                break
+        last = want[-1]
+        if last in ('index', 'selector'):
+            return None if out == Err('IndexError') else f'expected IndexError ({last}), got {str(out)[:80]}'
+        if last == 'range':
+            return None if out == Err('ValueError') else f'value outside mapped range gave {str(out)[:80]}'
+        if not idx:
+            return None if isinstance(out, Err) else 'an empty request returned frames'
+        if isinstance(out, Err):
+            return f'frames {fs} with flags {c["flags"]} ({mode}) not returned: {out}'
+        if out != want:
+            return f'values differ for frames {fs} with flags {c["flags"]} ({mode})'
+        return None
+    if k == 'rwvm_apply':
+        m, vals = c['map'], c['vals']
+        if m['type'] == 'lut' and c['dtype'] in ('float32', 'float64'):
+            return None if isinstance(out, Err) else 'LUT applied to a floating point array'
+        if not vals:
+            return None if isinstance(out, Err) else 'empty array accepted'
+        n = len(m['lut']) if m['type'] == 'lut' else None
+        last = m['first'] + n - 1 if n is not None else m['last']
+        if min(vals) < m['first'] or max(vals) > last:
+            return None if out == Err('ValueError') else f'value outside the mapped range gave {str(out)[:80]}'
+        if m['type'] == 'lut':
+            want = [F(m['lut'][v - m['first']]) for v in vals]
+        else:
+            want = [v * F(m['slope']) + F(m['intercept']) for v in vals]
+        return None if out == want else f'mapping applied wrongly: {str(out)[:80]}'
     if k == 'pm_float_read':
         exp, M = _expected_frames(c)
         if isinstance(out, Err):
@@ -1257,6 +1458,8 @@ def oracle(c, out):
             return 'float frames read through the image interface differ bit-wise'
         return None
     if k == 'pm_volume':
+        if c.get('dup'):
+            return None if isinstance(out, Err) else 'volume built although two planes share a position'
         if isinstance(out, Err):
             return f'volume of a regularly spaced map not returned: {out}'
         exp, M = _expected_frames(c)
@@ -1303,6 +1506,24 @@ def oracle(c, out):
                 return 'stored PixelData differs from the array bytes'
         return None
     return f'unknown kind {k}'
+
+
+def _flags_expect(rw, md, voi):
+    """documented meaning of apply_real_world_transform / apply_modality_transform / apply_voi_transform
+    (True = required, False = off, None = if available) on an image that has real world value mappings,
+    an identity rescale and a window; the real world mapping takes precedence over modality + VOI"""
+    if rw is True:
+        if md is True or voi is True:        # VOI needs the modality transform, which the mapping replaces
+            return 'error'
+        return 'rw'
+    if rw is None and md is not True:
+        if md is False:
+            return 'rw' if voi is False else 'error'       # VOI depends on the modality transform
+        return 'error' if voi is True else 'rw'            # required VOI is superseded by the mapping
+    # real world mapping off (or modality transform demanded)
+    if md is False:
+        return 'stored' if voi is False else 'error'
+    return 'stored' if voi is False else 'window'
 
 
 def _sc_supported(c):
